@@ -60,7 +60,12 @@ func (o *Object) UUID() uuid.UUID {
 	case o.l != nil:
 		return o.l.UUID()
 	case o.p != nil:
-		return o.p.UUID()
+		// The bytes hashed for a predicate (ID followed by "immutable" or the
+		// anchor) can coincide with the ones of a node (type followed by ID) or
+		// of a literal ("type:" followed by the value), which never start with
+		// "predicate:". Tag boxed predicates so that objects of different kinds
+		// never share a UUID.
+		return uuid.NewSHA1(uuid.NIL, append([]byte("predicate:"), o.p.UUID()...))
 	default:
 		return o.n.UUID()
 	}
